@@ -44,7 +44,7 @@ CLAIMED = {
          "DESIGN.md §4 C07"),
  "C14": ("exploration",
          "runtime monitor + Go race detector: concurrent SendSyncRequest callers in a -race client child against a scripted fake coordinator whose replies identify the request they answer; verif-tagged accessors for pending futures; goroutine-dump monitor for blocked response delivery",
-         "N in {2..512} concurrent callers under reply permutations, delays across heart-beats, sequential and back-to-back duplicates, drops, unsolicited responses, phase-two requests with colliding ids, late replies (thorough), a connection reset, and requests a session-open listener sends on sessions that have since been lost (refused at once, no future left); each caller must get exactly the response carrying its own name and frame id or a timeout error; after every script a fresh request must complete, no goroutine may be parked in response delivery and (at the end) no message future may remain.",
+         "N in {2..512} concurrent callers under reply permutations, delays across heart-beats, sequential duplicates and bursts of 2-17 copies of one reply, drops, unsolicited responses, phase-two requests with colliding ids, late replies (thorough), a connection reset, and requests a session-open listener sends on sessions that have since been lost (refused at once, no future left); each caller must get exactly the response carrying its own name and frame id or a timeout error; after every script a fresh request must complete, no goroutine may be parked in response delivery and (at the end) no message future may remain.",
          "Quiescence is logical (callers returned + round trip). A race report whose conflicting accesses all lie in the message-future code (GettyRemoting / GettyRemotingClient / message future) is a violation of this property (a duplicate that was stored instead of discarded); all other race reports are attributed to C20. The reset scenario assumes getty's reconnect.",
          "DESIGN.md §4 C14"),
  "C15": ("exploration",
@@ -58,7 +58,7 @@ CLAIMED = {
          "MySQL is harness/minimysql (own conformance tests through the real go-sql-driver); InnoDB specifics are not modelled. A failed statement ends the business function (application-style error handling).",
          "DESIGN.md §4 C01"),
  "C02": ("fault_enumeration",
-         "runtime monitor with fault injection at the database wire protocol and at the coordinator: every command position of a program's baseline journal x {error, connection dropped before/after}, registration refused/failed/unanswered, failing branch reports; offline invariants over the merged database journal and coordinator log",
+         "runtime monitor with fault injection at the database wire protocol and at the coordinator: every command position of a program's baseline journal x {error, connection dropped before/after}, registration refused/failed (with and without exception code)/unanswered, failing branch reports; offline invariants over the merged database journal and coordinator log",
          "Per (program, fault): register reply < undo-log insert < COMMIT on one connection with the granted branch id; business rows durable iff the undo row is durable; on failure the caller gets an error, nothing is durable, a registered branch is reported PhaseOne_Failed, and no pooled connection is left idle inside a transaction.",
          "Fault positions come from a fault-free baseline run of the same program on a fresh table. A failing COMMIT is modelled as InnoDB does (nothing committed, transaction ended). Client crash points (SIGKILL just before / right after every command position) run for 2 programs in the quick tier and 10 in the thorough tier, each crash in a client of its own.",
          "DESIGN.md §4 C02"),
@@ -94,7 +94,7 @@ CLAIMED = {
          "DESIGN.md §4 C20"),
  "C16": ("exploration",
          "differential runtime monitor: the same generated statement program runs in one client process through the AT proxy, through the XA proxy and through the bare go-sql-driver against three fake databases with identical content; step results, statement journals, final committed contents and the coordinator's request log are compared",
-         "Programs of queries, DML (literal / bound arguments, duplicate keys, syntax errors, unknown tables), prepared statements, explicit local transactions (default, isolation level, read-only; commit or rollback), pinned connections, multi-statement texts, DDL, locking reads, upserts, INSERT column lists in another order, unsigned 64-bit arguments; a second batch outside global transactions with server-side parameters; mixed programs that use one dedicated connection inside and then outside a global transaction (phase two delivered before the global end is answered, as the real coordinator does for XA); optionally with the server closing the idle pooled connections in between, or losing a connection right after it executed a statement (the driver's 'invalid connection': not to be repeated). Outside a global transaction (AT and XA proxies): identical journal (text, arguments, order), identical results (rows, column names/types, affected, last insert id, error number and text), no coordinator traffic. Inside a committed AT global transaction: identical business statement results, identical committed data, same business statements in the same order.",
+         "Programs of queries, DML (literal / bound arguments, duplicate keys, syntax errors, unknown tables), prepared statements, explicit local transactions (default, isolation level, read-only; commit or rollback), pinned connections, multi-statement texts, DDL, locking reads, upserts, INSERT column lists in another order, unsigned 64-bit arguments; a second batch outside global transactions with server-side parameters; mixed programs that use one dedicated connection inside and then outside a global transaction (phase two delivered before the global end is answered, as the real coordinator does for XA); every database opened a second time with clientFoundRows=true (value-preserving UPDATEs through the second handles); optionally with the server closing the idle pooled connections in between, or losing a connection right after it executed a statement (the driver's 'invalid connection': not to be repeated). Outside a global transaction (AT and XA proxies): identical journal (text, arguments, order), identical results (rows, column names/types, affected, last insert id, error number and text), no coordinator traffic. Inside a committed AT global transaction: identical business statement results, identical committed data, same business statements in the same order.",
          "DSN as in seata-go's documentation and tests (interpolateParams=true). Metadata lookups and undo_log traffic are excluded from the journal comparison. Four open findings (C16-K1..K4) are reported as KNOWN-FINDING; a program hit by one of them is not judged further (K4: once phase two has closed the dedicated connection of a mixed XA program, its remaining statements cannot be compared). XA inside a global transaction is C17's subject.",
          "DESIGN.md §4 C16"),
  "C17": ("fault_enumeration",
